@@ -172,6 +172,10 @@ impl Check for C06 {
         "fault_enumeration"
     }
 
+    fn crash_prone(&self) -> bool {
+        true
+    }
+
     fn generate(&self, rng: &mut Rng, tier: Tier, _index: u64) -> Sc {
         let mut world = Self::base_world(rng);
         let root = world.root().to_string();
